@@ -160,8 +160,11 @@ def r_filter(ctx, tv, rule='S4-FILTER'):
             return None
         if _contains_filter(m, popped) and pushes_popped_id(arg):
             return 'guarded by candidates.contains(item)'
-        if m[0] == 'call' and m[1].endswith('::map_or') and cand_payload(m[2][0]) and const_eval(m[2][1]) == 1:
-            clo = strip(m[2][2])
+        # `candidates.map_or(true, |c| c.contains(id))` / `candidates.is_none_or(|c| c.contains(id))`
+        is_mo = m[0] == 'call' and m[1].endswith('::map_or') and len(m[2]) == 3 and cand_payload(m[2][0]) and const_eval(m[2][1]) == 1
+        is_no = m[0] == 'call' and m[1].endswith('::is_none_or') and len(m[2]) == 2 and cand_payload(m[2][0])
+        if is_mo or is_no:
+            clo = strip(m[2][2] if is_mo else m[2][1])
             if clo[0] == 'closure' and F.fn(clo[1]) is not None:
                 g = F.fn(clo[1])
                 rets = paths.ret_assigns(g)
